@@ -31,7 +31,7 @@ import sys
 from collections.abc import Hashable
 from typing import TypeVar
 
-from happysimulator.sketching.base import MembershipSketch
+from happysimulator.sketching.base import MembershipSketch, stable_item_repr
 
 T = TypeVar("T", bound=Hashable)
 
@@ -160,7 +160,7 @@ class BloomFilter(MembershipSketch[T]):
         """
         h = hashlib.sha256()
         h.update(struct.pack(">QQ", self._seed, i))
-        h.update(repr(item).encode("utf-8"))
+        h.update(stable_item_repr(item).encode("utf-8"))
         digest = h.digest()
         h1 = struct.unpack(">Q", digest[:8])[0]
         h2 = struct.unpack(">Q", digest[8:16])[0]
